@@ -30,9 +30,12 @@ def run(ctx):
     R4 = rep.rule('C14.R4', 'the outer asset depends on the nested asset: the asset record dominates the nested load; nested recording iff hot-reloaded and reloader present', floor=4)
     R5 = rep.rule('C14.R5', 'who-may-record: Record insertions <- add_*record <- Cache impl only; the record comes from this thread\'s RECORDING cell', floor=5)
     R6 = rep.rule('C14.R6', 'a file dependency is (id, ext) in that order on the recording side and on the event side', floor=2)
+    R7 = rep.rule('C14.R7', 'no_record suspends recording whichever cache it is called on (the recorder belongs to the thread, not to a cache)', floor=2)
     for cfg, F in ctx.hr_cfgs():
         r6(R6, cfg, F)
         R6.finish_cfg(cfg)
+        r7(R7, cfg, F)
+        R7.finish_cfg(cfg)
         r1(R1, cfg, F)
         nesting_discipline(R2, cfg, F)
         r3(R3, cfg, F)
@@ -209,6 +212,22 @@ def r5(R5, cfg, F):
             if c.callee and 'NonNull' in c.callee.best and c.callee.name in ('as_mut', 'as_ptr') and c.args and c.args[0]['k'] in ('copy', 'move') \
                     and 'records::Record' in c.args[0]['place']['ty']:
                 R5.bad(cfg, b.path, 'record-pointer-used-outside-records', 'the pointer to the current Record is dereferenced outside hot_reloading::records', c.loc())
+
+
+def r7(R7, cfg, F):
+    """`cache.no_record(f)`: reads made by f are not recorded -- for any cache, with or without a reloader: the record
+    in progress may belong to another cache used by the same load.  So the public front-ends run f through
+    records::no_record unconditionally."""
+    for p in ('cache::AssetCache::<S>::no_record', "anycache::AnyCache::<'a>::no_record"):
+        b = F.body(p)
+        if not b:
+            R7.missing(cfg, p)
+            continue
+        nr = [c for c in b.calls() if c.callee and c.callee.best == REC + 'no_record']
+        direct = [c for c in b.calls() if user_call_kind(c) == 'indirect']
+        ok = len(nr) == 1 and not direct and not common.guards_of(b, nr[0].bb) and common.inevitable(b, [], nr[0].bb) \
+            and b.origins(nr[0].args[0]) == {('arg', 2)} and (nr[0].dest['l'] == 0 or ('call', nr[0].bb) in b.origins(0))
+        R7.check(ok, cfg, p, 'always-through-records::no_record', '%s must run its closure inside records::no_record on every path (not only when this cache has a reloader)' % p.split('::')[-2], b.loc())
 
 
 def r6(R6, cfg, F):
